@@ -193,7 +193,7 @@ def gen(rng, nrng, tier):
         x, dk = gen_data(nrng, N, cplx, kind=kind)
         if dk == "dyn":
             x = np.asarray(x) * 2.0 ** int(nrng.integers(-10, 11))
-        NW = [1.5, 2.0, 2.5, 3.0, 4.0][i % 5]
+        NW = [1.5, 2.0, 2.5, 3.0, 4.0][i % 5] if i % 4 else [1.25, 2.25, 3.25, 2.75, 3.5, 1.75][(i // 4) % 6]
         kmax = int(2 * NW)
         k = [None, kmax, max(2, kmax - 1), 2][i % 4]
         if i % 9 == 4 and methods[i % 3] != "adapt":
